@@ -75,6 +75,7 @@ type bridgeGen struct {
 	wdNext       uint64
 	idsFrom      uint64 // wdNext when the current block was planned
 	forceReplace bool   // spv histories: the next process / replace message is a fee bump
+	forceFinal   *wdTx  // this finalisation message is for this mined transaction, unspoilt
 	deps         []*depInfo
 	wtxs         []*wdTx
 	cbDep        *depInfo // a deposit placed in a coinbase transaction
@@ -1153,15 +1154,34 @@ func (g *bridgeGen) plan(mode string) (*BlockPlan, error) {
 			tx.BF["pfOk"] = true
 			plan.Txs = append(plan.Txs, &RelTx{Bytes: bz, Ev: "other", F: Ev{}, BEv: tx.BEv, BF: tx.BF})
 		case x < 18: // finalize (often two batches one after the other in the same block: the paid notices of both are owed)
+			// batches whose registered transaction is mined below the voted tip: with two or more of them, two are finalised in this block
+			// (the paid notices of both are owed); a single one now and then waits for company
+			var ready []*wdTx
+			for _, p := range st.Proc {
+				for _, w := range g.wtxs {
+					if w.pid == p.Pid && w.mined && int64(w.blk) <= st.Tip && indexOfStr(p.Txids, project.H6(w.txid)) >= 0 {
+						ready = append(ready, w)
+						break
+					}
+				}
+			}
+			if len(ready) == 1 && mode != "spv" && mode != "burst" && rare(3) {
+				continue
+			}
 			for rep := 0; rep < 2; rep++ {
+				g.forceFinal = nil
+				if len(ready) >= 2 && mode != "spv" {
+					g.forceFinal = ready[rep]
+				}
 				m, f := g.finalizeMsg(vc, st)
+				g.forceFinal = nil
 				if m == nil {
 					break
 				}
 				if err := add(m, "finalize", f); err != nil {
 					return nil, err
 				}
-				if rare(2) {
+				if rare(2) && len(ready) < 2 {
 					break
 				}
 			}
@@ -1470,6 +1490,9 @@ func (g *bridgeGen) finalizeMsg(vc *voteCtx, st *project.BridgeState) (sdk.Msg, 
 	}
 	w := cand[r.Intn(len(cand))]
 	large := false
+	if g.forceFinal != nil {
+		w, large = g.forceFinal, true
+	}
 	if g.mode == "spv" && rare(2) { // a batch that was fee-bumped: one of its mined transactions - the original, a replacement, the latest
 		var bumped, later []*wdTx
 		for _, p := range st.Proc {
